@@ -99,6 +99,51 @@ def _adj_post(method: str, last0, last1, result):
     return z3.BoolVal(True)  # state functions, error, emit: nothing promised here (emit sets it to the emitted kind)
 
 
+# ---- ghost: where the last skip_trivia() returned ($tv_at).  Claim (C10, clauses tv.*): every token the scanner emits -
+# except the text of a doc comment - begins exactly where a skip_trivia() ended, i.e. implicit WHITESPACE / COMMENT is accepted
+# in front of every token; and the precise cursor effects of the helper methods that the claim rests on.
+TV_PRE = ("accept_term", "accept_terminal", "accept_string", "accept_ci_string")  # require tv_at == pos == start
+STATE_FNS = ("scan_grammar", "scan_grammar_rule", "scan_grammar_doc_inner", "scan_rule_doc_inner")
+TV_START_PRE = ("accept_expression", "accept_postfix_op", "skip_trivia", *STATE_FNS)  # require start == pos
+TV_POST = ("accept_expression", "accept_term", "accept_postfix_op", "skip_trivia")  # ensure tv_at == pos == start
+
+
+def _tv_pre(method: str, pos, start, tv_at):
+    if method in TV_PRE:
+        return z3.And(tv_at == pos, start == pos)
+    if method in TV_START_PRE:
+        return start == pos
+    return z3.BoolVal(True)
+
+
+def _tv_post(method: str, pos0, start0, tv0, pos1, start1, tv1, result, is_none=None, sval=None):
+    """cursor effect of a scanner method on <pos, start, tv_at>; result: the boolean result (bool methods), is_none: the
+    result is None (scan / scan_until)"""
+    same = z3.And(pos1 == pos0, start1 == start0, tv1 == tv0)
+    if method in TV_POST:
+        return z3.And(tv1 == pos1, start1 == pos1, pos1 >= pos0)
+    if method in STATE_FNS:
+        return start1 == pos1  # every state function hands over with the token start at the cursor
+    if method == "scan":
+        return z3.And(start1 == start0, tv1 == tv0, pos1 >= pos0, z3.Implies(is_none, pos1 == pos0), z3.Implies(z3.Not(is_none), pos1 == pos0 + z3.Length(sval)))
+    if method == "scan_until":
+        return z3.And(start1 == start0, tv1 == tv0)
+    if method == "skip":
+        return z3.And(tv1 == tv0, z3.Implies(result, z3.And(start1 == pos1, pos1 >= pos0)), z3.Implies(z3.Not(result), z3.And(pos1 == pos0, start1 == start0)))
+    if method in ("accept_terminal", "accept_string", "accept_ci_string"):
+        return z3.And(z3.Implies(result, z3.And(start1 == pos1, pos1 >= pos0)), z3.Implies(z3.Not(result), same))
+    return z3.BoolVal(True)
+
+
+def _tv_emit_ok(kind: str, start, tv_at):
+    """the token being emitted starts where the last skip_trivia() ended (the opening quote, for string tokens)"""
+    if kind == "COMMENT_TEXT":
+        return z3.BoolVal(True)  # the text of a doc comment follows its opener (and an optional blank) directly
+    if kind in ("STRING", "STRING_CI"):
+        return z3.Or(start - 1 == tv_at, start == tv_at)  # the token may be taken to start at or after its opening quote
+    return start == tv_at
+
+
 SCANNER_METHODS = [
     "emit", "next", "peek", "scan", "scan_until", "skip", "skip_trivia", "error", "scan_grammar", "scan_grammar_doc_inner", "scan_grammar_rule",
     "scan_rule_doc_inner", "accept_expression", "accept_term", "accept_terminal", "accept_postfix_op", "accept_string", "accept_ci_string",
@@ -116,8 +161,9 @@ class ScannerModel(FunctionSpec):
         run.assume(z3.And(0 <= start.t, start.t <= pos.t, pos.t <= NG))
         toks = run.heap.alloc("tokens", {"n": run.fresh("ntokens", "int")}, fresh=False)
         last = run.fresh("last_kind", "int")
-        sc = run.heap.alloc(SCANNER, {"grammar": Sym(G, "str"), "pos": pos, "start": start, "tokens": toks, "$last": last}, fresh=False)
-        run.pre = {"sc": sc, "pos0": pos.t, "start0": start.t, "last0": last.t}
+        tv_at = run.fresh("tv_at", "int")
+        sc = run.heap.alloc(SCANNER, {"grammar": Sym(G, "str"), "pos": pos, "start": start, "tokens": toks, "$last": last, "$tv_at": tv_at}, fresh=False)
+        run.pre = {"sc": sc, "pos0": pos.t, "start0": start.t, "last0": last.t, "tv0": tv_at.t}
         return sc
 
     def inv(self, run: Run) -> z3.BoolRef:
@@ -212,11 +258,14 @@ class ScannerModel(FunctionSpec):
             run.setf(sc, "pos", wrap(z3.If(pos < NG, pos + 1, pos), "int"))
             return Sym(z3.If(pos < NG, z3.SubString(G, pos, 1), z3.StringVal("")), "str")
         last = z(o["$last"])
+        tv_at = z(o["$tv_at"])
         run.oblige(f"adj.callee.{name}.requires", _adj_pre(name, last))
+        run.oblige(f"tv.callee.{name}.requires", _tv_pre(name, pos, start, tv_at))
         if name == "emit":
             kind = args[0][1] if isinstance(args[0], tuple) and args[0] and args[0][0] == "$kind" else None
             run.oblige("adj.emit.kind_is_a_constant", kind is not None)
             if kind is not None:
+                run.oblige(f"tv.token_starts_after_trivia[{kind}]", _tv_emit_ok(kind, start, tv_at))
                 run.oblige(f"adj.okpair[{kind}]", okpair(last, kind))
                 run.setf(sc, "$last", wrap(z3.IntVal(kcode(kind)), "int"))
                 if kind in TOKEN_REGEX:
@@ -245,10 +294,17 @@ class ScannerModel(FunctionSpec):
         res_b = run.fresh_t(f"{name}_result", "bool") if kind == "bool" else z3.BoolVal(True)
         run.assume(_adj_post(name, last, nlast.t, res_b))
         run.setf(sc, "$last", nlast)
+        ntv = run.fresh(f"tv_after_{name}", "int")
+        ropt = run.fresh(f"{name}_result", "optstr") if kind == "optstr" else None
+        from pyvc.sorts import OptStr as _OS
+
+        run.assume(_tv_post(name, pos, start, tv_at, npos.t, nstart.t, ntv.t, res_b, _OS.is_none_s(ropt.t) if ropt is not None else None,
+                            _OS.sval(ropt.t) if ropt is not None else None))
+        run.setf(sc, "$tv_at", ntv)
         if kind == "bool":
             return wrap(res_b, "bool")
         if kind == "optstr":
-            r = run.fresh(f"{name}_result", "optstr")
+            r = ropt
             if name == "scan" and args and isinstance(args[0], RegexV):
                 run.ghost.setdefault("scan_results", {})[r.t.decl().name()] = getattr(args[0], "pattern", None)
             return r
@@ -284,6 +340,7 @@ class ScannerMethod(ScannerModel):
     def setup(self, run: Run):
         sc = self.mk_scanner(run)
         run.assume(_adj_pre(self.method, run.pre["last0"]))
+        run.assume(_tv_pre(self.method, run.pre["pos0"], run.pre["start0"], run.pre["tv0"]))
         args: list[Any] = []
         if self.method == "emit":
             args = [("$kind", "X"), run.fresh("value", "str")]
@@ -314,14 +371,28 @@ class ScannerMethod(ScannerModel):
         def mk(ordinal):
             want = loop_last.get((spec.method, ordinal), "same")
 
+            tv_inv = {
+                ("skip_trivia", 0): lambda p, st, tv, pre: z3.Or(z3.And(p == pre["pos0"], st == pre["start0"]), st == p),
+                ("accept_term", 0): lambda p, st, tv, pre: z3.And(tv == p, st == p),
+                ("accept_expression", 0): lambda p, st, tv, pre: st == p,
+                ("accept_postfix_op", 0): lambda p, st, tv, pre: st == p,
+                ("accept_postfix_op", 1): lambda p, st, tv, pre: st == p,
+                ("accept_string", 0): lambda p, st, tv, pre: z3.And(tv == pre["tv0"], st == pre["pos0"] + 1),
+                ("accept_ci_string", 0): lambda p, st, tv, pre: tv == st - 1,
+            }.get((spec.method, ordinal))
+
             def inv(run, g):
-                last = z(run.obj(run.pre["sc"])["$last"])
+                o = run.obj(run.pre["sc"])
+                last = z(o["$last"])
                 adj = last == run.pre["last0"] if want == "same" else among(last, want)
-                return [("object_invariant", spec.inv(run)), ("progress", z(run.obj(run.pre["sc"])["pos"]) >= run.pre["pos0"]), ("adj.last_kind", adj)]
+                out = [("object_invariant", spec.inv(run)), ("progress", z(o["pos"]) >= run.pre["pos0"]), ("adj.last_kind", adj)]
+                if tv_inv is not None:
+                    out.append(("tv.cursor", tv_inv(z(o["pos"]), z(o["start"]), z(o["$tv_at"]), run.pre)))
+                return out
 
             def modifies(run):
                 sc = run.pre["sc"]
-                return [(sc, "pos"), (sc, "start"), (sc, "$last")]
+                return [(sc, "pos"), (sc, "start"), (sc, "$last"), (sc, "$tv_at")]
 
             return Loop(inv, modifies=modifies)
 
@@ -333,6 +404,14 @@ class ScannerMethod(ScannerModel):
         if self.method != "emit":
             res = z(out, "bool") if RETURNS.get(self.method) == "bool" else z3.BoolVal(True)
             run.oblige("adj.post", _adj_post(self.method, pre["last0"], z(o["$last"]), res))
+            from pyvc.sorts import OptStr as _OS
+
+            is_none = sval = None
+            if RETURNS.get(self.method) == "optstr":
+                is_none = z3.BoolVal(True) if out is None else _OS.is_none_s(z(out, "optstr"))
+                sval = z3.StringVal("") if out is None else _OS.sval(z(out, "optstr"))
+            tv1 = z(o["pos"]) if self.method == "skip_trivia" else z(o["$tv_at"])  # skip_trivia DEFINES the ghost: where it returns
+            run.oblige("tv.post", _tv_post(self.method, pre["pos0"], pre["start0"], pre["tv0"], z(o["pos"]), z(o["start"]), tv1, res, is_none, sval))
         if self.method == "peek":
             run.oblige("result", z(out, "str") == z3.If(pre["pos0"] < NG, z3.SubString(G, pre["pos0"], 1), z3.StringVal("")))
             run.oblige("unchanged", z3.And(z(o["pos"]) == pre["pos0"], z(o["start"]) == pre["start0"]))
@@ -466,13 +545,13 @@ BOUNDED = ["Parser.from_grammar end to end (Expression constructors, optimizer, 
 
 
 # the token-adjacency clauses belong to C10 (they are what its token-layer proof assumes of scanner output)
-DROP_CLAUSES = r"(^|\.)adj\."
+DROP_CLAUSES = r"(^|\.)(adj|tv)\."
 
 
 class ScannerAdjacency(ScannerMethod):
     """the same executions, kept for their `adj.*` clauses only (used by C10)"""
 
-    keep_clauses = r"(^|\.)adj\."
+    keep_clauses = r"(^|\.)(adj|tv)\."
 
     def __init__(self, method: str):
         super().__init__(method)
